@@ -1,36 +1,40 @@
 package hash
 
+import "errors"
+
 type merkleDamgardHasher struct {
 	state []byte
 	iv    []byte
 	f     Compressor
 }
 
-// Write implements hash.Write
+// Write implements hash.Write. The input is absorbed block by block; if a block is
+// refused by the compression function nothing is absorbed and the state is left unchanged.
 func (h *merkleDamgardHasher) Write(p []byte) (n int, err error) {
 	blockSize := h.f.BlockSize()
+	state := h.state
 	for len(p) != 0 {
 		if len(p) < blockSize {
 			p = append(make([]byte, blockSize-len(p), blockSize), p...)
 		}
-		if h.state, err = h.f.Compress(h.state, p[:blockSize]); err != nil {
-			return
+		if state, err = h.f.Compress(state, p[:blockSize]); err != nil {
+			return 0, err
 		}
 		n += blockSize
 		p = p[blockSize:]
 	}
+	h.state = state
 	return
 }
 
+// Sum appends the current digest to b and returns the resulting slice. It does not
+// change the underlying hash state.
 func (h *merkleDamgardHasher) Sum(b []byte) []byte {
-	if _, err := h.Write(b); err != nil {
-		panic(err)
-	}
-	return h.state
+	return append(b, h.state...)
 }
 
 func (h *merkleDamgardHasher) Reset() {
-	h.state = h.iv
+	h.state = append([]byte(nil), h.iv...)
 }
 
 func (h *merkleDamgardHasher) Size() int {
@@ -41,12 +45,21 @@ func (h *merkleDamgardHasher) BlockSize() int {
 	return h.f.BlockSize()
 }
 
+// State returns a copy of the internal state.
 func (h *merkleDamgardHasher) State() []byte {
-	return h.state
+	return append([]byte(nil), h.state...)
 }
 
+// SetState sets the internal state to a copy of state. The state must be a value the
+// compression function accepts as its left input.
 func (h *merkleDamgardHasher) SetState(state []byte) error {
-	h.state = state
+	if len(state) != h.f.BlockSize() {
+		return errors.New("merkle-damgard: invalid state length")
+	}
+	if _, err := h.f.Compress(state, make([]byte, h.f.BlockSize())); err != nil {
+		return err
+	}
+	h.state = append([]byte(nil), state...)
 	return nil
 }
 
@@ -66,8 +79,8 @@ func (h *merkleDamgardHasher) SetState(state []byte) error {
 // using a deterministic method.
 func NewMerkleDamgardHasher(f Compressor, initialState []byte) StateStorer {
 	return &merkleDamgardHasher{
-		state: initialState,
-		iv:    initialState,
+		state: append([]byte(nil), initialState...),
+		iv:    append([]byte(nil), initialState...),
 		f:     f,
 	}
 }
